@@ -242,4 +242,17 @@ def regular (p : String × List (List Nat)) : Bool :=
       && (decl.zipIdx.all fun (c, i) => c / 2 == i)
   | _ => false
 
+
+mutual
+/-- every built-in scalar a schema mentions has a type id 1..22 (so `decScalar`'s final arm is dead) -/
+def Ty.scOk : Ty → Bool
+  | .sc tid => 1 ≤ tid && tid ≤ 22
+  | .struct ts => Ty.scOkL ts
+  | .arr t => t.scOk
+  | _ => true
+def Ty.scOkL : List Ty → Bool
+  | [] => true
+  | t :: ts => t.scOk && Ty.scOkL ts
+end
+
 end OpcuaVerif.Enc
